@@ -7,6 +7,9 @@ import PermutaModel.Lemmas.C17MaxMesh
 import PermutaModel.Lemmas.C17Suffice
 import PermutaModel.Lemmas.C17Order
 import PermutaModel.Spec.C17
+import PermutaModel.Lemmas.C17Auto
+import PermutaModel.Lemmas.C17AutoIds
+import PermutaModel.Props.C03
 
 /-!
 # C17 — BiSC output describes its input: sound up to `n`, complete up to `m`, irredundant
@@ -22,8 +25,10 @@ whose runs branch on an *arbitrary* free cell (CPython iterates over a `set` the
 relation `ForbRun` built from such runs; the printed result does not depend on the choices, nor on
 the order in which the input is listed.
 
-Not proved here (evaluated by the harness on the implementation's actual output, see `PARTIAL` in
-`harness/c17.py`): `auto_bisc`.
+`auto_bisc` (last section): the automatic driver for a property given as a function is the model
+`Model.C17.autoBisc fuel ch A B` (Model/C17Auto.lean): `ch` is a choice function for `basis = bases[0]`
+(the only place where CPython's set order decides), `fuel` bounds the number of loop-body executions.
+All statements hold for every `ch`.
 -/
 open Model Model.C17
 
@@ -624,5 +629,211 @@ example : (mine (mkD .list [[0, 2, 1], [0, 1, 2], [0]] 3) 2 3).2 ≠
     Proto.showExcept Driver.C17.showDict (bisc .list [[0, 2, 1], [0, 1, 2], [0]] 2 (some 3)) =
       Proto.showExcept Driver.C17.showDict (bisc .list [[0], [0, 1, 2], [0, 2, 1]] 2 (some 3)) :=
   ⟨by decide, list_order_independence .list _ _ (by decide) (by decide) 2 (some 3)⟩
+
+/-! ## `auto_bisc` (bisc.py:57-262) for a property given as a function, for every choice of `bases[0]`
+
+Non-vacuity of the hypothesis `autoBisc fuel ch A B = .found sg` cannot be shown by kernel computation (the run
+enumerates S_0..S_8 and goes through the well-founded hitting-set recursion); it is *evaluated*: every line of the
+harness stream `auto-bisc-functions` is such a run of the compiled model (fuel 12) ending in `.found`.  The acceptance
+condition itself, the divergence theorem and the outcome theorem have kernel-checked instances below. -/
+
+/-- **(a)/(c) a returned description has passed the full check.**  Whatever the choices and the fuel: when the
+    model of `auto_bisc` returns a dictionary `sg` for the dictionaries `A` (good) and `B` (bad), then for the final
+    value `L ≥ 8` of the check length every permutation listed in `A[0..L]` avoids all mesh patterns of `sg` and every
+    permutation listed in `B[0..L]` contains one of them (`Model.containsMesh`, the containment the code's own private
+    test decides: `private_test_eq_mesh_containment`).  There is no other way to return a description:
+    `return sg` (line 205) is reached only after both sanity checks have passed on the *chosen* basis - in
+    particular a basis that fails a check is never returned, and "giving up" does not exist for a function input
+    (`AutoRes` has no such value: the loop goes on with longer permutations). -/
+theorem auto_bisc_returns_checked (fuel : Nat) (ch : Choice) (A B : Nat → List NSeq) (sg : PattDict)
+    (h : autoBisc fuel ch A B = .found sg) :
+    ∃ L, 8 ≤ L ∧ (∀ k ≤ L, ∀ a ∈ A k, ∀ p ∈ meshesOf sg, containsMesh a p = false) ∧
+      (∀ k ≤ L, ∀ b ∈ B k, ∃ p ∈ meshesOf sg, containsMesh b p = true) := by
+  obtain ⟨L, hL, hv⟩ := autoOuter_found A B ch sg fuel 8 4 2 h
+  obtain ⟨hb, hg⟩ := (verdict_accept_iff A B L sg).mp hv
+  exact ⟨L, hL, (psGood_iff sg A L).mp hg, (psBad_iff sg B L).mp hb⟩
+
+/-- non-vacuity of the acceptance condition: for `A[2] = [01]`, `B[2] = [10]` (nothing else) the description
+    `{2: {10: [∅]}}` passes both checks up to `L = 2`, the description `{2: {01: [∅]}}` is a "bad basis" -/
+example : verdict (fun k => if k = 2 then [[0, 1]] else []) (fun k => if k = 2 then [[1, 0]] else []) 2
+      [(2, [([1, 0], [[]])])] = .accept ∧
+    verdict (fun k => if k = 2 then [[0, 1]] else []) (fun k => if k = 2 then [[1, 0]] else []) 2
+      [(2, [([0, 1], [[]])])] = .badBasis := by
+  have h1 : permContainsDict [1, 0] [(2, [([1, 0], [[]])])] = true := by
+    unfold permContainsDict permContainsMany
+    simp only [List.any_cons, List.any_nil, Bool.or_false]
+    rw [C01.occurrencesIn_eq_spec _ _ (by decide) (by decide)]; decide
+  have h2 : permContainsDict [0, 1] [(2, [([1, 0], [[]])])] = false := by
+    unfold permContainsDict permContainsMany
+    simp only [List.any_cons, List.any_nil, Bool.or_false]
+    rw [C01.occurrencesIn_eq_spec _ _ (by decide) (by decide)]; decide
+  have h3 : permContainsDict [1, 0] [(2, [([0, 1], [[]])])] = false := by
+    unfold permContainsDict permContainsMany
+    simp only [List.any_cons, List.any_nil, Bool.or_false]
+    rw [C01.occurrencesIn_eq_spec _ _ (by decide) (by decide)]; decide
+  constructor
+  · simp [verdict, psBad, psGood, sufficeBad, sufficeGood, keysUpTo, List.range, List.range.loop, h1, h2]
+  · simp [verdict, psBad, sufficeBad, keysUpTo, List.range, List.range.loop, h3]
+
+/-- **(a) soundness of the returned description, as the property states it.**  For every property `P` given as a
+    function, every choice function and every fuel: when the model of `auto_bisc(P)` returns `sg`, then for every
+    permutation `σ` of length at most 8: `σ` avoids all mesh patterns of `sg` ⇔ `P σ`. -/
+theorem auto_bisc_sound (fuel : Nat) (ch : Choice) (P : NSeq → Bool) (sg : PattDict)
+    (h : autoBiscProp fuel ch P = .found sg) (σ : NSeq) (hσ : IsPerm σ) (hlen : σ.length ≤ 8) :
+    (∀ p ∈ meshesOf sg, containsMesh σ p = false) ↔ P σ = true := by
+  obtain ⟨L, hL, hg, hb⟩ := auto_bisc_returns_checked fuel ch _ _ sg h
+  have hmem : σ ∈ permsLex σ.length := (permsLex_exact _ σ).mpr ⟨hσ, rfl⟩
+  constructor
+  · intro hav
+    cases hP : P σ with
+    | true => rfl
+    | false =>
+      obtain ⟨p, hp, hc⟩ := hb σ.length (by omega) σ (List.mem_filter.mpr ⟨hmem, by simp [hP]⟩)
+      rw [hav p hp] at hc; cases hc
+  · intro hP p hp
+    exact hg σ.length (by omega) σ (List.mem_filter.mpr ⟨hmem, hP⟩) p hp
+
+/-- **(a) for arbitrary start parameters** (`L`, `n`, `m` are 8, 4, 2 in the code): whatever the loop is started with,
+    a returned description coincides with the property on every permutation of length at most the final check
+    length `L' ≥ L`. -/
+theorem auto_bisc_sound_from (fuel : Nat) (ch : Choice) (P : NSeq → Bool) (L n m : Nat) (sg : PattDict)
+    (h : autoOuter (goodOf P) (badOf P) ch fuel L n m = .found sg) :
+    ∃ L', L ≤ L' ∧ ∀ σ, IsPerm σ → σ.length ≤ L' →
+      ((∀ p ∈ meshesOf sg, containsMesh σ p = false) ↔ P σ = true) := by
+  obtain ⟨L', hL, hv⟩ := autoOuter_found _ _ ch sg fuel L n m h
+  obtain ⟨hb, hg⟩ := (verdict_accept_iff _ _ L' sg).mp hv
+  have hg := (psGood_iff sg _ L').mp hg
+  have hb := (psBad_iff sg _ L').mp hb
+  refine ⟨L', hL, fun σ hσ hlen => ?_⟩
+  have hmem : σ ∈ permsLex σ.length := (permsLex_exact _ σ).mpr ⟨hσ, rfl⟩
+  constructor
+  · intro hav
+    cases hP : P σ with
+    | true => rfl
+    | false =>
+      obtain ⟨p, hp, hc⟩ := hb σ.length hlen σ (List.mem_filter.mpr ⟨hmem, by simp [hP]⟩)
+      rw [hav p hp] at hc; cases hc
+  · intro hP p hp
+    exact hg σ.length hlen σ (List.mem_filter.mpr ⟨hmem, hP⟩) p hp
+
+/-- the classical patterns of a returned description are permutations (they are patterns learned by `forb`: every
+    entry of a basis of `clean_up` is an entry of `SG`, and `to_sg_format` only regroups the entries) -/
+theorem auto_bisc_returns_permutation_patterns (fuel : Nat) (ch : Choice) (A B : Nat → List NSeq) (sg : PattDict)
+    (h : autoBisc fuel ch A B = .found sg) : ∀ p ∈ meshesOf sg, IsPerm p.pattern :=
+  autoOuter_found_perm A B ch sg fuel 8 4 2 h
+
+/-- **(a) with the specification's mesh containment** (`MeshContains σ p`: an occurrence of the underlying pattern of
+    `p` in `σ` with no other point of `σ` in a shaded cell): for every property `P` given as a function, every choice
+    function and every fuel, when the model of `auto_bisc(P)` returns `sg`, a permutation `σ` of length at most 8
+    contains none of the mesh patterns of `sg` exactly when `P σ` holds. -/
+theorem auto_bisc_sound_spec (fuel : Nat) (ch : Choice) (P : NSeq → Bool) (sg : PattDict)
+    (h : autoBiscProp fuel ch P = .found sg) (σ : NSeq) (hσ : IsPerm σ) (hlen : σ.length ≤ 8) :
+    (∀ p ∈ meshesOf sg, ¬ MeshContains σ p) ↔ P σ = true := by
+  have hpat := auto_bisc_returns_permutation_patterns fuel ch _ _ sg h
+  rw [← auto_bisc_sound fuel ch P sg h σ hσ hlen]
+  constructor
+  · intro hav p hp
+    cases hc : containsMesh σ p with
+    | false => rfl
+    | true => exact absurd ((C03.containsMesh_iff σ p (hpat p hp) hσ).mp hc) (hav p hp)
+  · intro hav p hp hc
+    have := (C03.containsMesh_iff σ p (hpat p hp) hσ).mpr hc
+    rw [hav p hp] at this; cases this
+
+/-- **(d) the meaning of the answer does not depend on the choices**: two runs (any choice functions, any fuels)
+    that both return a description return descriptions that are avoided by exactly the same permutations of
+    length at most 8.  (The returned *dictionaries* do differ with the choice - evaluated with the driver op
+    `autoall 5 1,0/0.0,0.1,1.1,2.2;1,0/0.0,1.2,2.1,2.2`: for the property "avoids (10, {00,01,11,22}) and
+    (10, {00,12,21,22})" the runs return either `{2: {10: [{00,01,11,22}, {00,12,21,22}]}}` or
+    `{2: {10: [{00,11,21,22}, {00,12,21,22}]}}`, depending on the basis taken at a choice point with two bases.) -/
+theorem auto_bisc_choice_independent_meaning (fuel fuel' : Nat) (ch ch' : Choice) (P : NSeq → Bool)
+    (sg sg' : PattDict) (h : autoBiscProp fuel ch P = .found sg) (h' : autoBiscProp fuel' ch' P = .found sg')
+    (σ : NSeq) (hσ : IsPerm σ) (hlen : σ.length ≤ 8) :
+    (∀ p ∈ meshesOf sg, containsMesh σ p = false) ↔ (∀ p ∈ meshesOf sg', containsMesh σ p = false) := by
+  rw [auto_bisc_sound fuel ch P sg h σ hσ hlen, auto_bisc_sound fuel' ch' P sg' h' σ hσ hlen]
+
+/-- **(d) the set of possible answers**: `autoBiscAll fuel A B` lists the results of all runs - it is computed
+    without any choice function - and the run under any choice function is one of them; every description in the
+    list has passed the full check. -/
+theorem auto_bisc_result_among_all (fuel : Nat) (ch : Choice) (A B : Nat → List NSeq) :
+    autoBisc fuel ch A B ∈ autoBiscAll fuel A B :=
+  autoOuter_mem_all A B ch fuel 8 4 2
+
+theorem auto_bisc_all_checked (fuel : Nat) (A B : Nat → List NSeq) (sg : PattDict)
+    (h : AutoRes.found sg ∈ autoBiscAll fuel A B) :
+    ∃ L, 8 ≤ L ∧ (∀ k ≤ L, ∀ a ∈ A k, ∀ p ∈ meshesOf sg, containsMesh a p = false) ∧
+      (∀ k ≤ L, ∀ b ∈ B k, ∃ p ∈ meshesOf sg, containsMesh b p = true) := by
+  obtain ⟨L, hL, hv⟩ := autoOuterAll_found A B sg fuel 8 4 2 h
+  obtain ⟨hb, hg⟩ := (verdict_accept_iff A B L sg).mp hv
+  exact ⟨L, hL, (psGood_iff sg A L).mp hg, (psBad_iff sg B L).mp hb⟩
+
+/-- **(b) totality and fuel.**  The model is a total function of `(fuel, ch, A, B)` (structural recursion on the
+    fuel, for every choice function).  Fuel only decides whether the answer is reached: a run that has ended
+    (a description, or an error) is not changed by more fuel. -/
+theorem auto_bisc_fuel_independent (fuel d : Nat) (ch : Choice) (A B : Nat → List NSeq)
+    (h : autoBisc fuel ch A B ≠ .outOfFuel) : autoBisc (fuel + d) ch A B = autoBisc fuel ch A B :=
+  autoOuter_fuel_mono A B ch fuel 8 4 2 h d
+
+/-- **(b) progress of the inner loop**: one execution of its body either ends it (a description is returned,
+    `break`, or `run_clean_up` raises) or continues with `ib + 1` ("No bases found") or with `n + 1` ("A bad basis
+    was chosen") - `n + ib` grows by one, nothing else changes. -/
+theorem auto_bisc_inner_progress (A B : Nat → List NSeq) (ch : Choice) (SG : PattDict) (L f n ib : Nat) :
+    (∃ sg, autoInner A B ch SG L (f + 1) n ib = .found sg) ∨ autoInner A B ch SG L (f + 1) n ib = .again (n + 1) ∨
+    (∃ e, autoInner A B ch SG L (f + 1) n ib = .err e) ∨
+    autoInner A B ch SG L (f + 1) n ib = autoInner A B ch SG L f n (ib + 1) ∨
+    autoInner A B ch SG L (f + 1) n ib = autoInner A B ch SG L f (n + 1) ib := by
+  rw [autoInner.eq_2 A B ch SG L n ib f]
+  split
+  · exact Or.inr (Or.inr (Or.inl ⟨_, rfl⟩))
+  · exact Or.inr (Or.inr (Or.inr (Or.inl rfl)))
+  · split
+    · exact Or.inr (Or.inr (Or.inr (Or.inr rfl)))
+    · exact Or.inr (Or.inl rfl)
+    · exact Or.inl ⟨_, rfl⟩
+
+/-- **(b) progress of the outer loop**: one execution of its body that does not end the run continues with a
+    strictly larger `n` and with `L ≥ n + 1` (so the dictionaries always cover the lengths learned from). -/
+theorem auto_bisc_outer_progress (A B : Nat → List NSeq) (ch : Choice) (f L n m : Nat) :
+    (∃ sg, autoOuter A B ch (f + 1) L n m = .found sg) ∨ autoOuter A B ch (f + 1) L n m = .outOfFuel ∨
+    (∃ e, autoOuter A B ch (f + 1) L n m = .err e) ∨
+    ∃ L' n' m', n < n' ∧ n' + 1 ≤ L' ∧ L ≤ L' ∧ m ≤ m' ∧
+      autoOuter A B ch (f + 1) L n m = autoOuter A B ch f L' n' m' := by
+  rw [autoOuter.eq_2 A B ch L n m f]
+  split
+  · split
+    · exact Or.inl ⟨_, rfl⟩
+    · rename_i n' heq
+      have := autoInner_again A B ch _ L n' _ _ _ heq
+      exact Or.inr (Or.inr (Or.inr ⟨max L (n' + 1), n', m, this, by omega, by omega, by omega, rfl⟩))
+    · exact Or.inr (Or.inl rfl)
+    · exact Or.inr (Or.inr (Or.inl ⟨_, rfl⟩))
+  · exact Or.inr (Or.inr (Or.inr ⟨max L (n + 2), n + 1, m + 1, by omega, by omega, by omega, by omega, rfl⟩))
+
+/-- **(b) the Python loop has no bound of its own: it need not terminate.**  When every permutation of every length
+    is listed as good (e.g. the property that is always true) `mine` finds nothing to check, `bisc` returns `{}`,
+    and every pass takes the branch "Need to learn longer patterns" (`n += 1; m += 1`, then `L` grows and longer
+    permutations are enumerated): for every fuel and every choice function the model is still running. -/
+theorem auto_bisc_all_good_diverges (fuel : Nat) (ch : Choice) (A B : Nat → List NSeq)
+    (hA : ∀ k, (A k).length = factorial k) : autoBisc fuel ch A B = .outOfFuel :=
+  autoOuter_full A B ch hA fuel 8 4 2 (by omega) (by omega)
+
+/-- the instance: the property that holds for every permutation -/
+theorem auto_bisc_true_property_diverges (fuel : Nat) (ch : Choice) :
+    autoBiscProp fuel ch (fun _ => true) = .outOfFuel := by
+  apply auto_bisc_all_good_diverges
+  intro k
+  simp [goodOf, length_permsLex]
+
+/-- **(c) the outcomes for a function input.**  For a property given as a function the model of `auto_bisc` has
+    exactly two outcomes, whatever the choices: a description that has passed the full check
+    (`auto_bisc_returns_checked`), or "still running" - `run_clean_up`'s `max()` of an empty sequence (its only
+    error branch) cannot be reached: a learned dictionary that passed line 151 has a pattern, because a checked
+    length that is not entirely good has a bad permutation, which must contain a learned pattern. -/
+theorem auto_bisc_function_input_outcomes (fuel : Nat) (ch : Choice) (P : NSeq → Bool) :
+    (∃ sg, autoBiscProp fuel ch P = .found sg) ∨ autoBiscProp fuel ch P = .outOfFuel := by
+  cases h : autoBiscProp fuel ch P with
+  | found sg => exact Or.inl ⟨sg, rfl⟩
+  | outOfFuel => exact Or.inr rfl
+  | err e => exact absurd h (autoOuter_prop_no_err P ch e fuel 8 4 2 (by omega) (by omega))
 
 end C17
